@@ -28,6 +28,9 @@ def run(ctx):
     rule_M2(ctx, 'NeuralBound.contains')      # contains() tests every member in one frame:
     rule_M2(ctx, 'NautilusBound.contains')    # the region proposals are uniform over is well defined
     rule_A3(ctx)
+    from ..shape import rule_N4, rule_G8
+    rule_N4(ctx)      # per-member membership tests are reduced over the members
+    rule_G8(ctx)      # each pool job draws from its own stream
     rule_T8ii(ctx, 'Union.sample')
     rule_T8ii(ctx, 'NautilusBound.sample')
     rule_Q1_Q2(ctx)
